@@ -200,10 +200,10 @@ Definition ex_case (cl : list Match.entry) : case :=
      p4tab := ex_p4; p6tab := []; cref := Some false |}.
 (* unknown system, non-member: forbidden and no file access (not: not-found) *)
 Example C05_nonvacuous_handler :
-  valid (ex_case [EStr ex_net25]) /\ run_model (ex_case [EStr ex_net25]) = {| ocode := 2; ocount := 0 |} /\
+  valid (ex_case [EStr ex_net25]) /\ run_model (ex_case [EStr ex_net25]) = {| ocode := 2; ocount := 0; odetail := 0 |} /\
   run_model {| ckind := KFile; craise := false; centries := [EStr ex_net24]; cclient := ex_client; ckey := true;
                cact := AIgnore; cnores := NRNotFound; ctemplate := false; clookup := true; cfind := FNone;
                cgetd := GRaise; cfs := FsContent; cmethod_ok := true; cbad_body := false; cstore_fault := false;
                p4tab := ex_p4; p6tab := []; cref := None |}
-    = {| ocode := 1; ocount := 0 |}.
+    = {| ocode := 1; ocount := 0; odetail := 0 |}.
 Proof. vm_compute. auto. Qed.
